@@ -13,7 +13,9 @@ component-wise intersection (C11.d).
 Added in round 4: the coverage keeps its holes when it is transformed (C11.j, shared C17.i); the
 progress key of a seed task names its levels (C11.k).
 Added in round 5: MultiCoverage only hands the rectangle on (C11.l); rescaling caches are seeded
-tile by tile (C11.m)."""
+tile by tile (C11.m).
+Added in round 7: a dry run neither writes nor removes the progress file -- the script builds a read-only
+store from --dry-run and the store's file effects are guarded by the flag (C11.n, repair D51)."""
 import ast
 
 from ..engine import rule
@@ -571,3 +573,55 @@ def c11m(ctx):
             all(any(n in g.reachable(d) for n in offs) for s_, d in edges)
     ctx.check(ok and bool(walker), 'seed_task:tile-by-tile-for-rescaling-caches', 'work_on_metatiles is switched off for every non-zero rescale_tiles', fn,
               fail='seed_task walks a rescaling cache by meta tile unless rescale_tiles is positive: an upscaling cache gets one tile per meta tile')
+
+
+@rule('C11.n', floor=4)
+def c11n(ctx):
+    """saved progress stands for work that was done: a dry run (`--dry-run`) walks the pyramid without creating a tile, so it must
+    neither record its position in the progress file nor remove the file when it finishes (D51: an interrupted dry run followed by
+    `--continue` skipped every subtree the dry run had walked; a finished dry run deleted the progress of an interrupted real run).
+    Decided in two halves that have to agree: (1) the command line script builds its ProgressStore read-only from the dry-run option
+    (or builds none in a dry run); (2) in a read-only store every effect on the file -- write_atomic / open for writing in write(),
+    os.remove / os.unlink in remove() -- is guarded by the flag being false"""
+    sc = ctx.fn('mapproxy/seed/script.py:SeedScript.__call__')
+    g = sc.cfg
+    cf = Canon(sc)
+    made = g.find(lambda x: is_call(x, 'ProgressStore'))
+    if not made:
+        raise Undecided('SeedScript.__call__: construction of the ProgressStore not found')
+
+    def is_dry(at):
+        return at.op is None and 'dry_run' in unparse(at.expr)
+    flag_names = set()
+    for n, x in made:
+        ro = keyword(x, 'read_only', 2)
+        v = cf.expr(ro) if ro is not None else None
+        if is_call(v, 'bool') and len(v.args) == 1:
+            v = v.args[0]
+        wired = v is not None and isinstance(v, ast.Attribute) and v.attr == 'dry_run'
+        none_in_dry_run = g.guarded(n, is_dry, False)
+        ctx.check(wired or none_in_dry_run, 'SeedScript.__call__:store-read-only-in-dry-run',
+                  'ProgressStore(..., read_only=options.dry_run) (or no store at all in a dry run)', sc, x,
+                  fail='the progress store of a dry run is writable: a dry run records progress for tiles it never created '
+                       '(and removes the saved progress of a real run when it ends)')
+    st = ctx.fn(U + ':ProgressStore.__init__')
+    p_ro = [a for a in st.params if a == 'read_only']
+    keeps = [s for s in st.walk() if isinstance(s, ast.Assign) and isinstance(s.targets[0], ast.Attribute) and
+             isinstance(s.value, ast.Name) and s.value.id == 'read_only' and unparse(s.targets[0].value) == 'self']
+    flag_names = {s.targets[0].attr for s in keeps}
+    ctx.check(bool(p_ro) and bool(flag_names), 'ProgressStore.__init__:keeps-read-only', 'the read_only argument is kept on the store', st,
+              fail='ProgressStore does not keep a read_only flag')
+
+    def is_flag(at):
+        return at.op is None and isinstance(at.expr, ast.Attribute) and at.expr.attr in flag_names and unparse(at.expr.value) == 'self'
+    for meth, effects, what in (('write', ('write_atomic', 'open', 'pickle.dump', 'os.rename', 'os.replace'), 'writes the file'),
+                                ('remove', ('os.remove', 'os.unlink'), 'removes the file')):
+        fn = ctx.fn(U + ':ProgressStore.' + meth)
+        gg = fn.cfg
+        sites = gg.find(lambda x: any(is_call(x, e) for e in effects))
+        if not sites:
+            raise Undecided('ProgressStore.%s: the call that %s was not found' % (meth, what))
+        for n, x in sites:
+            ctx.check(gg.guarded(n, is_flag, False), 'ProgressStore.%s:not-when-read-only' % meth,
+                      'ProgressStore.%s %s only if the store is not read-only' % (meth, what), fn, x,
+                      fail='a read-only ProgressStore still %s (%s)' % (what, unparse(x)[:50]))
